@@ -30,3 +30,50 @@ Example C07_mpeg1video_example : (* first packet of frame a lost; an intact b; t
   | _, _, _ => False
   end.
 Proof. vm_compute. reflexivity. Qed.
+
+(* ---- the translated kernels (tools/go2coq, regenerated from the Go source on every run) ----
+   The header bit fields of rtpmpeg1video/decoder.go decodeSlice - mbz = p0 >> 3, t = (p0 >> 2) & 1, an = p2 >> 7,
+   n = (p2 >> 6) & 1, b = (p2 >> 4) & 1, e = (p2 >> 3) & 1 - with the tests != 0 on them, the conditions of the tagless
+   switch (b == 1 && e == 1, b == 1, e == 1), the sequence-number expectation pkt.SequenceNumber + 1, its continuity
+   test pkt.SequenceNumber != d.fragmentNextSeqNum and the no-start test d.fragmentsSize == 0 (two copies each: end and
+   middle fragment), d.fragmentNextSeqNum++ - ARE the tests of Model.decode_slice: p0 / 8, (p0 / 4) mod 2, p2 / 128,
+   (p2 / 64) mod 2, (p2 / 16) mod 2 =? 1, (p2 / 8) mod 2 =? 1, seq_next, negb (pseq =? dfnext), dfsize =? 0. *)
+From Coq Require Import ZArith.
+From GVG Require Import Kern.
+From GV_mpeg1video Require Import BridgeLib Bridge.
+Open Scope Z_scope.
+
+Theorem C07_mpeg1video_kernels_are_the_code : forall (p0 p2 seq next fs : N),
+  byte p0 -> byte p2 -> u16 seq -> u16 next ->
+  k_mpeg1video_dec_mbz_bad (k_mpeg1video_dec_mbz (Z.of_N p0)) = negb (p0 / 8 =? 0)%N /\
+  k_mpeg1video_dec_t_bad (k_mpeg1video_dec_t (Z.of_N p0)) = negb ((p0 / 4) mod 2 =? 0)%N /\
+  k_mpeg1video_dec_an_bad (k_mpeg1video_dec_an (Z.of_N p2)) = negb (p2 / 128 =? 0)%N /\
+  k_mpeg1video_dec_n_bad (k_mpeg1video_dec_n (Z.of_N p2)) = negb ((p2 / 64) mod 2 =? 0)%N /\
+  k_mpeg1video_dec_whole (k_mpeg1video_dec_b (Z.of_N p2)) (k_mpeg1video_dec_e (Z.of_N p2))
+    = (((p2 / 16) mod 2 =? 1)%N && ((p2 / 8) mod 2 =? 1)%N) /\
+  k_mpeg1video_dec_first (k_mpeg1video_dec_b (Z.of_N p2)) = ((p2 / 16) mod 2 =? 1)%N /\
+  k_mpeg1video_dec_lastf (k_mpeg1video_dec_e (Z.of_N p2)) = ((p2 / 8) mod 2 =? 1)%N /\
+  k_mpeg1video_dec_nextseq (Z.of_N seq) = Z.of_N (seq_next seq) /\
+  k_mpeg1video_dec_incseq (Z.of_N next) = Z.of_N (seq_next next) /\
+  k_mpeg1video_dec_gap1 (Z.of_N seq) (Z.of_N next) = negb (seq =? next)%N /\
+  k_mpeg1video_dec_gap2 (Z.of_N seq) (Z.of_N next) = negb (seq =? next)%N /\
+  k_mpeg1video_dec_nostart1 (Z.of_N fs) = (fs =? 0)%N /\
+  k_mpeg1video_dec_nostart2 (Z.of_N fs) = (fs =? 0)%N.
+Proof. exact resync_kernels_are_the_code. Qed.
+Print Assumptions C07_mpeg1video_kernels_are_the_code.
+
+(* byte 2 = 0x18: B and E set -> whole slice; 0x10: first fragment; 0x08: last fragment; 0x00: middle; 0x80 / 0x40: AN / N
+   rejected; byte 0 = 0x08: MBZ violated, 0x04: T rejected, 0x03: accepted; 65535 + 1 = 0; 7 after 6 is no gap, 8 is *)
+Example C07_mpeg1video_example_kernels :
+  k_mpeg1video_dec_whole (k_mpeg1video_dec_b 24) (k_mpeg1video_dec_e 24) = true /\
+  k_mpeg1video_dec_whole (k_mpeg1video_dec_b 16) (k_mpeg1video_dec_e 16) = false /\
+  k_mpeg1video_dec_first (k_mpeg1video_dec_b 16) = true /\ k_mpeg1video_dec_lastf (k_mpeg1video_dec_e 16) = false /\
+  k_mpeg1video_dec_lastf (k_mpeg1video_dec_e 8) = true /\ k_mpeg1video_dec_first (k_mpeg1video_dec_b 8) = false /\
+  k_mpeg1video_dec_an_bad (k_mpeg1video_dec_an 128) = true /\ k_mpeg1video_dec_an_bad (k_mpeg1video_dec_an 127) = false /\
+  k_mpeg1video_dec_n_bad (k_mpeg1video_dec_n 64) = true /\ k_mpeg1video_dec_n_bad (k_mpeg1video_dec_n 63) = false /\
+  k_mpeg1video_dec_mbz_bad (k_mpeg1video_dec_mbz 8) = true /\ k_mpeg1video_dec_mbz_bad (k_mpeg1video_dec_mbz 7) = false /\
+  k_mpeg1video_dec_t_bad (k_mpeg1video_dec_t 4) = true /\ k_mpeg1video_dec_t_bad (k_mpeg1video_dec_t 3) = false /\
+  k_mpeg1video_dec_nextseq 65535 = 0 /\ k_mpeg1video_dec_incseq 65535 = 0 /\
+  k_mpeg1video_dec_gap1 7 7 = false /\ k_mpeg1video_dec_gap1 8 7 = true /\ k_mpeg1video_dec_gap2 8 7 = true /\
+  k_mpeg1video_dec_nostart1 0 = true /\ k_mpeg1video_dec_nostart2 1 = false.
+Proof. vm_compute. repeat split. Qed.
